@@ -5,6 +5,7 @@ CONSTANTS
   K = 2
   Kind <- K2_long
   QSize = 1
+  MaxLeak = 0
   MaxCrash = 0
   MaxTimeout = 0
   MaxCancel = 1
